@@ -86,7 +86,7 @@ def tree_sexp(t):
 
 def frag_program(rng):
     """a program of the fragment for which compile-then-execute = source meaning is PROVED (props/C01.v, C01_var_programs):
-    top-level declarations, assignments, expression statements, if/else and (counted, hence ending) condition loops
+    top-level declarations, assignments, expression statements, if/else, if and (counted, hence ending) condition loops
     nested up to three deep, over scalar expressions on integers, booleans, nil and strings; here it is rendered to source text and pushed through the real pipeline like every other program"""
     nvars = [0]
     kinds = []          # 'i' / 'b' / '?' per variable (what it was last given; a guide for the generator, not a type system)
@@ -161,8 +161,10 @@ def frag_program(rng):
     def inner(depth):
         """the statements a block may hold: assignments, expressions, conditionals, counted loops (nesting <= 3)"""
         k = rng.below(10)
-        if k >= 7 and depth < 3:
+        if k >= 8 and depth < 3:
             return ["if %s { %s } else { %s }" % (bexpr(1), block(depth + 1), block(depth + 1))]
+        if k == 7 and depth < 3:
+            return ["if %s { %s }" % (bexpr(1), block(depth + 1))]
         if k == 6 and depth < 3 and free_counters:
             j = free_counters.pop()
             body = block(depth + 1)
@@ -195,6 +197,45 @@ def frag_program(rng):
         else:
             lines.extend(inner(0) if rng.chance(1, 2) else
                          ["if %s { %s } else { %s }" % (bexpr(1), block(1), block(1))])
+    return "\n".join(lines)
+
+
+def list_program(rng):
+    """lists as values with identity: literals, + (always a NEW list), append / index assignment (in place, seen through
+    every alias), aliases, slices (copies); every variable is printed at the end, so storage shared by mistake between
+    two results of + (or a result and its operand) shows as a wrong element"""
+    n = [0]
+    lines = []
+
+    def new(e):
+        lines.append("l%d := %s" % (n[0], e))
+        n[0] += 1
+
+    def lit():
+        return "[" + ", ".join(str(rng.below(50)) for _ in range(rng.below(5))) + "]"
+
+    new(lit())
+    for _ in range(4 + rng.below(10)):
+        k = rng.below(12)
+        a = "l%d" % rng.below(n[0])
+        b = "l%d" % rng.below(n[0])
+        if k < 3:
+            new("%s + %s" % (a, rng.choice([lit(), b, "[%d]" % rng.below(50), "[]"])))
+        elif k < 6:
+            lines.append("%s.append(%d)" % (a, 100 + rng.below(100)))
+        elif k == 6:
+            lines.append("if len(%s) > 0 { %s[%s] = %d }" % (a, a, rng.choice(["0", "-1", "len(%s) / 2" % a]), 200 + rng.below(100)))
+        elif k == 7:
+            new(a)                                   # an alias: later appends / assignments are seen through both names
+        elif k == 8:
+            new("%s[%s]" % (a, rng.choice(["1:", ":1", ":", "0:2", "-1:"])) if rng.chance(1, 2) else "%s + []" % a)
+        elif k == 9:
+            new(lit())
+        elif k == 10:
+            lines.append("%s = %s + %s" % (a, a, rng.choice([lit(), b])))
+        else:
+            lines.append("for i := range 2 { %s.append(i) }" % a)
+    lines.append("[" + ", ".join("l%d" % i for i in range(n[0])) + "]")
     return "\n".join(lines)
 
 
@@ -232,6 +273,9 @@ def run(res):
     for i in range(max(300, nprog // 4)):
         srcs.append(frag_program(rng))
     stats["programs of the proved fragment"] = max(300, nprog // 4)
+    for i in range(max(200, nprog // 8)):
+        srcs.append(list_program(rng))
+    stats["list identity programs"] = max(200, nprog // 8)
     corpus = []
     for f in ("harvest.hex", "semgen.hex", "edge.hex"):
         for line in open(os.path.join(C.VERIF, "corpus", "core", f)):
